@@ -153,7 +153,7 @@ SparsePost(s) ==
              ELSE IF Tracked(p) THEN {None} ELSE {W[p]}]]
 
 \* ------------------------------------------------------------------ table
-AllOps == {"reset-hard", "checkout-force", "checkout", "reset-merge", "reset-keep",
+AllOps == {"reset-hard", "checkout-force", "checkout-force-create", "checkout", "checkout-twin", "checkout-create", "reset-merge", "reset-keep",
            "add", "add-all", "remove", "move", "clean", "commit", "status", "sparse"}
 
 Args(o) == CASE o \in {"add", "remove"} -> {<<p>> : p \in Paths}
@@ -168,8 +168,10 @@ Entangled(p) == \E pq \in Under : (pq[1] = p /\ (I[pq[2]] # None \/ W[pq[2]] # N
 Unspecified(e) == [e EXCEPT !.verdict = "unspecified"]
 
 ExpectRaw(o, a) ==
-  CASE o \in {"reset-hard", "checkout-force"} -> HardPost
+  CASE o \in {"reset-hard", "checkout-force", "checkout-force-create"} -> HardPost
     [] o = "checkout"    -> SoftSwitch("checkout")
+    \* switching to another branch on the SAME commit / creating a branch at HEAD: T = H, nothing to write
+    [] o \in {"checkout-twin", "checkout-create"} -> SoftSwitch("checkout")
     [] o = "reset-keep"  -> SoftSwitch("keep")
     [] o = "reset-merge" -> SoftSwitch("merge")
     [] o = "add"         -> AddPost({a[1]}, FALSE)
@@ -186,7 +188,7 @@ Expect(o, a) == IF o \in {"add", "remove", "move"} /\ \E i \in 1..Len(a) : Entan
 
 \* pre-states: H, I, T any consistent trees; W any consistent worktree.  Operations that do
 \* not look at T get T = H so that the table has no duplicate rows.
-UsesT(o) == o \in {"reset-hard", "checkout-force", "checkout", "reset-merge", "reset-keep", "sparse"}
+UsesT(o) == o \in {"reset-hard", "checkout-force", "checkout-force-create", "checkout", "reset-merge", "reset-keep", "sparse"}
 Init == /\ H \in Trees /\ I \in Trees /\ W \in Trees /\ T \in Trees
         /\ op \in Ops /\ arg \in Args(op)
         /\ (~UsesT(op) => T = H)
@@ -200,10 +202,10 @@ Emit == PrintT(ToJson(Row))
 
 \* ------------------------------------------------------------------ theorems (TLC invariants over every row)
 \* C25: a successful hard reset leaves no tracked change: index = T and every target path holds T
-HardIsClean == op \in {"reset-hard", "checkout-force"} =>
+HardIsClean == op \in {"reset-hard", "checkout-force", "checkout-force-create"} =>
                  \A p \in Paths : exp.idx[p] = {T[p]} /\ (T[p] # None => exp.wt[p] = {T[p]})
 \* C25: untracked files not in the target survive (outside directory / file collisions)
-HardKeepsUntracked == op \in {"reset-hard", "checkout-force"} =>
+HardKeepsUntracked == op \in {"reset-hard", "checkout-force", "checkout-force-create"} =>
                  \A p \in Paths : (Untracked(p) /\ T[p] = None /\ ~Collides(p)) => exp.wt[p] = {W[p]}
 \* C30: if any path must be written over a dirty file, the operation must refuse
 DirtyWriteRefuses == op \in {"checkout", "reset-merge", "reset-keep"} =>
